@@ -325,6 +325,16 @@ pub fn run(a: &ShardArgs) -> serde_json::Value {
             samples.push(json!({"definitions": defs.iter().map(|d| format!("{:?} /{}/ loc{}", ["Given","When","Then"][d.kw as usize], POOL[d.re], d.loc)).collect::<Vec<_>>(), "ambiguous_lookups": amb}));
         }
     }
+    // the same through the runner's own registration methods (clones of runners included)
+    if a.mine(2) {
+        for (key, msg) in crate::zoo::c17_runner_registration() {
+            violations.push(json!({
+                "engine": "hist", "property": "C17", "tier": a.tier, "key": key,
+                "extra": "runner-registration", "message": msg,
+            }));
+        }
+        evaluations += 4;
+    }
     json!({
         "property": "C17", "tier": a.tier,
         "total_configs": sets.len(), "configs_done": done, "configs_skipped_budget": skipped,
@@ -336,6 +346,13 @@ pub fn run(a: &ShardArgs) -> serde_json::Value {
 }
 
 pub fn replay(j: &serde_json::Value) -> i32 {
+    if j["extra"].as_str() == Some("runner-registration") {
+        let vs = crate::zoo::c17_runner_registration();
+        for (k, m) in &vs {
+            println!("violation C17 [{k}]: {m}");
+        }
+        return i32::from(!vs.is_empty());
+    }
     let thorough = j["tier"].as_str() == Some("thorough");
     let fns = step_fns();
     let res: Vec<Regex> = (0..POOL.len()).map(compile).collect();
